@@ -6,6 +6,7 @@ package main
 import (
 	"fmt"
 	"go/ast"
+	"go/token"
 	"go/types"
 	"sort"
 	"strings"
@@ -112,6 +113,19 @@ func chanUsesIn(p *Prog, info *types.Info, body ast.Node, ch types.Object, fn st
 					u.deferredClose++
 					return false
 				}
+				// defer func() { …; close(ch); … }(): an unconditional close at the top level of a deferred closure
+				if fl, ok := ast.Unparen(x.Call.Fun).(*ast.FuncLit); ok {
+					for _, st := range fl.Body.List {
+						if es, ok := st.(*ast.ExprStmt); ok {
+							if call, ok := es.X.(*ast.CallExpr); ok {
+								if id, ok := call.Fun.(*ast.Ident); ok && id.Name == "close" && len(call.Args) == 1 && isCh(call.Args[0]) {
+									u.deferredClose++
+									return false
+								}
+							}
+						}
+					}
+				}
 			case *ast.CallExpr:
 				if id, ok := x.Fun.(*ast.Ident); ok && id.Name == "close" && len(x.Args) == 1 && isCh(x.Args[0]) {
 					u.closes++
@@ -213,6 +227,62 @@ func ruleStopSignal(c *Ctx) {
 			default:
 				c.ok(rule, fi.Name, "stop channel "+ch.Name(), c.P.pos(as.Pos()), fmt.Sprintf("closed by a deferred close; %d polling receives in the consumers", cons.recvPoll))
 			}
+			// the stop is signalled before the owner waits for anything: deferred functions run last-in
+			// first-out, so a deferred function declared after the deferred close runs before it — if it
+			// can block (it waits for the producer, say) the producer is never told to stop, and it is
+			// parked holding the instance's read lock.
+			closeSeen := false
+			bad := ""
+			for _, st := range fi.Decl.Body.List {
+				ds, ok := st.(*ast.DeferStmt)
+				if !ok {
+					continue
+				}
+				if id, ok := ast.Unparen(ds.Call.Fun).(*ast.Ident); ok && id.Name == "close" && len(ds.Call.Args) == 1 && objOfIdent(info, ds.Call.Args[0]) == ch {
+					closeSeen = true
+					continue
+				}
+				if closesChanInside(info, ds, ch) {
+					closeSeen = true
+					continue
+				}
+				if closeSeen {
+					if why := mayBlock(info, ds); why != "" {
+						bad = fmt.Sprintf("the deferred function at %s runs before the deferred close of %s (defers run last-in first-out) and can block (%s): when the stream fails part-way the producer is parked holding the instance's read lock, waiting for a stop signal that is only sent after the wait for the producer", c.P.pos(ds.Pos()), ch.Name(), why)
+					}
+				}
+			}
+			// the same wait written inline: outside the service loop's select, a bare receive from (or send
+			// to) a channel shared with the producer waits for a goroutine that has not been told to stop
+			// (the close is deferred, it happens at exit)
+			inSelect := map[ast.Node]bool{}
+			inspectNoFuncLit(fi.Decl.Body, func(m ast.Node) bool {
+				if sel, ok := m.(*ast.SelectStmt); ok {
+					for _, cl := range sel.Body.List {
+						if cc := cl.(*ast.CommClause); cc.Comm != nil {
+							ast.Inspect(cc.Comm, func(q ast.Node) bool {
+								if q != nil {
+									inSelect[q] = true
+								}
+								return true
+							})
+						}
+					}
+				}
+				return true
+			})
+			inspectNoFuncLit(fi.Decl.Body, func(m ast.Node) bool {
+				if u, ok := m.(*ast.UnaryExpr); ok && u.Op == token.ARROW && !inSelect[u] {
+					if o := objOfIdent(info, u.X); o != nil && o != ch {
+						if _, isCh := o.Type().Underlying().(*types.Chan); isCh {
+							bad = fmt.Sprintf("the handler waits for the producer with a bare receive from %s (%s) although the stop channel is only closed when the handler returns", o.Name(), c.P.pos(u.Pos()))
+						}
+					}
+				}
+				return true
+			})
+			c.Sites++
+			c.check(bad == "", rule, fi.Name, "stop channel "+ch.Name()+" is closed before the owner waits", c.P.pos(as.Pos()), "no deferred function that can block is declared after the deferred close", bad)
 		} else {
 			c.note("channel %s of %s: consumer uses poll=%d blocking-recv=%d sends=%d — a completion channel, not a stop request; a consumer blocked on it after the RPC returned holds no lock", ch.Name(), fi.Name, cons.recvPoll, cons.recvBlocking, cons.sendBlocking+cons.sendNonBlocking)
 		}
@@ -369,4 +439,75 @@ func ruleElectionAtomic(c *Ctx) {
 	default:
 		c.ok(rule, fi.Name, "read-compare-write in one exclusive section", c.P.pos(fi.Decl.Pos()), fmt.Sprintf("load of curElecID for the comparison and %d stores under one exclusive acquisition", nStores))
 	}
+}
+
+// closesChanInside: defer func() { … close(ch) … }()
+func closesChanInside(info *types.Info, ds *ast.DeferStmt, ch types.Object) bool {
+	fl, ok := ast.Unparen(ds.Call.Fun).(*ast.FuncLit)
+	if !ok {
+		return false
+	}
+	found := false
+	ast.Inspect(fl.Body, func(n ast.Node) bool {
+		if call, ok := n.(*ast.CallExpr); ok {
+			if id, ok := ast.Unparen(call.Fun).(*ast.Ident); ok && id.Name == "close" && len(call.Args) == 1 && objOfIdent(info, call.Args[0]) == ch {
+				found = true
+			}
+		}
+		return true
+	})
+	return found
+}
+
+// mayBlock: a deferred function literal containing a bare channel receive or send, a select
+// without a default arm, or a WaitGroup/Cond Wait. Returns what was found ("" = nothing).
+func mayBlock(info *types.Info, ds *ast.DeferStmt) string {
+	fl, ok := ast.Unparen(ds.Call.Fun).(*ast.FuncLit)
+	if !ok {
+		if f, ok := calleeObj(info, ds.Call).(*types.Func); ok && f.Name() == "Wait" {
+			return "calls " + f.FullName()
+		}
+		return ""
+	}
+	why := ""
+	inNonBlockingSelect := map[ast.Node]bool{}
+	ast.Inspect(fl.Body, func(n ast.Node) bool {
+		switch x := n.(type) {
+		case *ast.SelectStmt:
+			hasDefault := false
+			for _, cl := range x.Body.List {
+				if cc := cl.(*ast.CommClause); cc.Comm == nil {
+					hasDefault = true
+				}
+			}
+			if !hasDefault {
+				why = "select without a default arm"
+			}
+			for _, cl := range x.Body.List {
+				if cc := cl.(*ast.CommClause); cc.Comm != nil {
+					inNonBlockingSelect[cc.Comm] = true
+					ast.Inspect(cc.Comm, func(m ast.Node) bool {
+						if m != nil {
+							inNonBlockingSelect[m] = true
+						}
+						return true
+					})
+				}
+			}
+		case *ast.UnaryExpr:
+			if x.Op == token.ARROW && !inNonBlockingSelect[x] {
+				why = "receives from " + types.ExprString(x.X)
+			}
+		case *ast.SendStmt:
+			if !inNonBlockingSelect[x] {
+				why = "sends on " + types.ExprString(x.Chan)
+			}
+		case *ast.CallExpr:
+			if f, ok := calleeObj(info, x).(*types.Func); ok && f.Name() == "Wait" && f.Pkg() != nil && f.Pkg().Path() == "sync" {
+				why = "calls " + f.FullName()
+			}
+		}
+		return true
+	})
+	return why
 }
